@@ -46,6 +46,7 @@ static bool node_spec(const Case &cs, const Node &x, mint::CertSpec &s)
     s.subjectKey = x.key;
     s.signKey = x.signKey;
     s.hash = x.hash;
+    s.mislabelFamily = x.mislabel;
     s.bc = x.bc; s.bcCritical = x.bcCrit; s.pathLen = x.bc == mint::BC_TRUE ? x.pathLen : -1;
     s.ku = x.ku; s.kuCritical = x.kuCrit;
     if (x.eku) s.eku.push_back(x.eku);
@@ -114,7 +115,13 @@ static bool selfcheck(const Case &cs, std::string &why)
     {
         int v = mint::verify_cert(x.der, x.signKey);
         bool expect = (x.sig == SIG_OK || x.sig == SIG_WRONGKEY);
-        if (v < 0 || (v == 1) != expect) { why = "cert " + describe_node(x) + vf::fmt(" verify=%d", v); return false; }
+        if (x.mislabel && kkind(x.signKey) != mint::K_ED25519)
+        {
+            // libcrypto refuses the mislabelled certificate (key type does not fit the algorithm identifier); the raw signature is genuine
+            int raw = mint::verify_raw(x.der, x.signKey, x.hash);
+            if (v != 0 || (raw == 1) != expect) { why = "mislabelled cert " + describe_node(x) + vf::fmt(" verify=%d raw=%d", v, raw); return false; }
+        }
+        else if (v < 0 || (v == 1) != expect) { why = "cert " + describe_node(x) + vf::fmt(" verify=%d", v); return false; }
         // the model's RFC 5280 reading of a forced date string must be libcrypto's reading (whenever libcrypto has one)
         int64_t e = 0;
         if (x.nbEnc && mint::time_to_epoch(x.nbEnc, x.nbStr, &e) && e != cs.now + x.nb) { why = "notBefore meaning " + describe_node(x); return false; }
@@ -387,6 +394,13 @@ static void judge(Case &cs, Mx &mx, vf::Ctx &c, const std::string &where)
     if (cs.defects.empty()) c.count("defect:none");
     if (!cs.crls.empty()) c.count("with-crl");
     for (auto &r : cs.crls) c.count(!r.mxParsed ? "crl:not-parsed" : r.mxAuthenticated ? "crl:authenticated" : "crl:not-authenticated");
+    for (int id : cs.chain)
+    {
+        const Node &x = cs.n[(size_t) id];
+        if (x.mislabel)
+            c.count(std::string("mislabel:") + (mint::kind_is_rsa(kkind(x.signKey)) ? "rsa-signed-labelled-ecdsa" : "ec-signed-labelled-rsa")
+                    + (x.sig == SIG_WRONGKEY ? ":wrong-key" : ":genuine") + (success ? ":accepted(counted-only)" : ":rejected"));
+    }
     if (cs.reorderFirst) c.count("opt:reorder-first");
     if (cs.revalidateDates) c.count("opt:revalidate-dates");
     if (cs.anchorBundle)
